@@ -345,6 +345,10 @@ func (c *C) Mail(ctx context.Context, from string, opts smtp.MailOptions) error 
 		return c.wrapClientErr(err, c.serverName)
 	}
 
+	// New transaction, the connection may have been used for another one
+	// before.
+	c.rcpts = nil
+
 	return nil
 }
 
@@ -376,6 +380,10 @@ func (c *C) Rcpt(ctx context.Context, to string, opts smtp.RcptOptions) error {
 		// TODO: DSN support
 	}
 
+	// Rcpts() should return the address the caller knows, not
+	// the one converted for the remote server.
+	originalTo := to
+
 	// If necessary, the extension flag is enabled in Start.
 	if ok, _ := c.cl.Extension("SMTPUTF8"); !address.IsASCII(to) && !ok {
 		var err error
@@ -397,7 +405,7 @@ func (c *C) Rcpt(ctx context.Context, to string, opts smtp.RcptOptions) error {
 		return c.wrapClientErr(err, c.serverName)
 	}
 
-	c.rcpts = append(c.rcpts, to)
+	c.rcpts = append(c.rcpts, originalTo)
 
 	return nil
 }
